@@ -538,5 +538,8 @@ func runC13() int {
 
 func c13NodeScenarios() []histParams {
 	ev := []string{"ext:12", "ext:1", "reorg:1:2", "reorg:3:4", "reorg:12:13", "duph:0", "duph:1", "ans", "ans:1", "ansb", "tick:250", "settle"}
-	return []histParams{{Prop: "C13", Cfg: WorldCfg{InitialChain: 4, StartHeight: 2, SafeDelayMS: 2000, RemoveMissing: true}, Boot: "synced", Events: ev, Drain: true, BlockFetch: true}}
+	// raw headers messages that announce a branch and a fork off it in one message, bodies in any order
+	adv := []string{"h:b4,b5,e5,e6", "h:b4,b5", "h:b4,b5,b6,e5", "h:e5,e6", "h:b4,e5", "b:b4", "b:b5", "b:e5", "b:e6", "tick:250"}
+	return []histParams{{Prop: "C13", Cfg: WorldCfg{InitialChain: 4, StartHeight: 2, SafeDelayMS: 2000, RemoveMissing: true}, Boot: "synced", Events: ev, Drain: true, BlockFetch: true},
+		{Prop: "C13", Cfg: WorldCfg{InitialChain: 3, StartHeight: 2, ExtraTrunk: 3, SafeDelayMS: 2000, RemoveMissing: true}, Boot: "synced", Events: adv, Adversarial: true, BlockFetch: true}}
 }
